@@ -30,8 +30,8 @@ package formula
 //@   ensures errd(s) && nd(s) >= old(nd(s)) && cbok(s)
 
 //@ func (*Scanner).errorAtPos
-//@   tags [C01,C14]
-//@   requires sbase(s) && cbok(s) && msg != nil && pos >= 0 && length >= 0
+//@   tags [C01,C14,C15]
+//@   requires sbase(s) && cbok(s) && msg != nil && pos >= 0 && length >= 0 && pos + length <= s.end
 //@   assigns owner(s).parseDiagnostics
 //@   panics never
 //@   dispatch ErrorHandler: (*Parser).scanError
@@ -202,7 +202,7 @@ package formula
 //@   ensures old(s.pos) < s.end && old(cur(s)) == 92 ==> result == "" && s.pos == old(s.pos) && s.tokenFlags == old(s.tokenFlags)
 //@   ensures allHexLower(result) && (scanAsManyAsPossible || len(result) <= max(count, 0))
 //@   ensures[C13] !canHaveSeparators && !scanAsManyAsPossible ==> s.pos == hexRun(s.text, old(s.pos), count) && len(result) == s.pos - old(s.pos) && hexValS(result) == hv(s.text, old(s.pos), s.pos) && nd(s) == old(nd(s))
-//@   loop 1: invariant scanFrame(s) && s.pos >= old(s.pos) && 0 <= underlineStart && underlineStart <= s.pos && nd(s) >= old(nd(s))
+//@   loop 1: invariant scanFrame(s) && s.pos >= old(s.pos) && 0 <= underlineStart && underlineStart <= s.pos && nd(s) >= old(nd(s)) && (isPreviousTokenSeparator ==> underlineStart < s.pos)
 //@           invariant[C13] !canHaveSeparators && !scanAsManyAsPossible ==> hexRun(s.text, s.pos, count - len(valueChars)) == hexRun(s.text, old(s.pos), count) && len(valueChars) == s.pos - old(s.pos) && hexValS(valueChars) == hv(s.text, old(s.pos), s.pos) && nd(s) == old(nd(s)) && !isPreviousTokenSeparator
 //@           invariant old(s.pos) < s.end && old(cur(s)) == 92 ==> len(valueChars) == 0 && s.pos == old(s.pos) && !isPreviousTokenSeparator && s.tokenFlags == old(s.tokenFlags)
 //@           invariant allHexLower(valueChars) && (scanAsManyAsPossible || len(valueChars) <= max(count, 0))
@@ -286,7 +286,9 @@ package formula
 //@   assigns s.pos, s.tokenFlags, owner(s).parseDiagnostics
 //@   panics never
 //@   ensures scanFrame(s) && s.pos >= old(s.pos) && nd(s) >= old(nd(s)) && s.tokenFlags == old(s.tokenFlags)
+//@   ensures[C15] len(result) == s.pos - old(s.pos)
 //@   loop 1: invariant scanFrame(s) && old(s.pos) <= start && start <= s.pos && nd(s) >= old(nd(s)) && s.tokenFlags == old(s.tokenFlags)
+//@           invariant[C15] len(result) == 0 && start == old(s.pos)
 //@           decreases s.end - s.pos
 
 //@ func (*Scanner).Scan
@@ -339,14 +341,14 @@ package formula
 //@ func (*Parser).scanError
 //@   tags [C01,C14]
 //@   requires p != nil && p.scanner != nil && sbase(p.scanner) && diagsok(p)
-//@   requires message != nil && pos >= -1 && length >= 0
+//@   requires[C15] message != nil && pos >= -1 && length >= 0 && (pos == -1 ? length == 0 : pos + length <= p.scanner.end)
 //@   assigns p.parseDiagnostics
 //@   panics never
 //@   ensures len(p.parseDiagnostics) > 0 && len(p.parseDiagnostics) >= len(old(p.parseDiagnostics)) && diagsok(p)
 
 //@ func (*Parser).errorAtPosition
 //@   tags [C01]
-//@   requires p != nil && message != nil && start >= 0 && length >= 0 && diagsok(p)
+//@   requires[C15] p != nil && message != nil && start >= 0 && length >= 0 && diagsok(p) && p.scanner != nil && start + length <= p.scanner.end
 //@   assigns p.parseDiagnostics
 //@   panics never
 //@   ensures len(p.parseDiagnostics) > 0 && len(p.parseDiagnostics) >= len(old(p.parseDiagnostics)) && diagsok(p)
@@ -834,6 +836,8 @@ package formula
 //@   ensures[C01] (err == nil) <==> (source != nil && len(source.Diagnostics) == 0)
 //@   ensures[C01] err == nil ==> okx(source.Expression) && source.EndOfFileToken != nil && source.EndOfFileToken.Token == SK_EndOfFile
 //@   ensures[C15] err == nil ==> source.pos == 0 && source.end == len(content) && xpos(source.Expression) == 0
+//@   ensures[C15] source != nil && len(source.Diagnostics) > 0 ==> lt(source.LineStarts, content)
+//@   ensures[C15] source != nil && len(source.Diagnostics) > 0 && source.Diagnostics[0].Start <= len(content) ==> (exists l int, c int :: lineCol(source.LineStarts, source.Diagnostics[0].Start, l, c) && errMsg(err) == fmtDiag(l, c, toLowerS(catName(source.Diagnostics[0].Category)), source.Diagnostics[0].Code, source.Diagnostics[0].MessageText))
 
 // ---------------------------------------------------------------------------
 // Line table
@@ -878,31 +882,40 @@ package formula
 //@   panics never
 //@   ensures[C15] offset <= len(content) ==> result1 == nil && 0 <= result0.Line && result0.Line < len(lineStarts) && lineStarts[result0.Line] <= offset && (result0.Line + 1 < len(lineStarts) ==> offset < lineStarts[result0.Line + 1]) && result0.Column == offset - lineStarts[result0.Line]
 
+// lt(R, t): R is the line table of the text t. lineCol: line l and column c locate offset off.
+//@ spec lt(R []int, t string) bool := starts(R, len(t)) && chain(R, t) && nls(t, R[len(R)-1]) == -1
+//@ spec lineCol(R []int, off int, l int, c int) bool := 0 <= l && l < len(R) && R[l] <= off && (l + 1 < len(R) ==> off < R[l+1]) && c == off - R[l]
+
 //@ func GetLineStarts
 //@   tags [C15,C01]
-//@   requires file != nil && (len(file.LineStarts) > 0 ==> starts(file.LineStarts, len(file.Text)))
+//@   requires file != nil && (len(file.LineStarts) > 0 ==> lt(file.LineStarts, file.Text))
 //@   assigns file.LineStarts
 //@   panics never
-//@   ensures result == file.LineStarts && starts(result, len(file.Text))
+//@   ensures result == file.LineStarts && lt(result, file.Text)
 
 //@ func GetFileLineAndCharacterFromPosition
 //@   tags [C15,C01]
-//@   requires file != nil && position >= 0 && (len(file.LineStarts) > 0 ==> starts(file.LineStarts, len(file.Text)))
+//@   requires file != nil && position >= 0 && (len(file.LineStarts) > 0 ==> lt(file.LineStarts, file.Text))
 //@   assigns file.LineStarts
 //@   panics never
-//@   ensures starts(file.LineStarts, len(file.Text))
-//@   ensures[C15] position <= len(file.Text) ==> 0 <= result.Line && result.Line < len(file.LineStarts) && file.LineStarts[result.Line] <= position && (result.Line + 1 < len(file.LineStarts) ==> position < file.LineStarts[result.Line + 1]) && result.Column == position - file.LineStarts[result.Line]
+//@   ensures lt(file.LineStarts, file.Text)
+//@   ensures[C15] position <= len(file.Text) ==> lineCol(file.LineStarts, position, result.Line, result.Column)
 
 //@ func PositionToLineAndCharacter
 //@   tags [C15]
 //@   requires pos >= 0
 //@   panics never
 
+// The error text of the statement: pos(line, column) category(code) message.
+//@ spec catName(k int) string := k == Warning ? "warning" : (k == Error ? "error" : (k == Information ? "info" : "unknown"))
+//@ spec fmtDiag(l int, c int, cat string, code int, msg string) string := sprintfS("pos(%d, %d) %s(%d) %s", unit(box(l, int)) ++ unit(box(c, int)) ++ unit(box(cat, string)) ++ unit(box(code, int)) ++ unit(box(msg, string)))
 //@ func FormatDiagnostic
 //@   tags [C01,C15]
-//@   requires source != nil && diagnostic != nil && (len(source.LineStarts) > 0 ==> starts(source.LineStarts, len(source.Text)))
+//@   requires source != nil && diagnostic != nil && (len(source.LineStarts) > 0 ==> lt(source.LineStarts, source.Text))
 //@   assigns source.LineStarts
 //@   panics never
+//@   ensures lt(source.LineStarts, source.Text)
+//@   ensures[C15] diagnostic.Start <= len(source.Text) ==> (exists l int, c int :: lineCol(source.LineStarts, diagnostic.Start, l, c) && result == fmtDiag(l, c, toLowerS(catName(diagnostic.Category)), diagnostic.Code, diagnostic.MessageText))
 
 // ---------------------------------------------------------------------------
 // Evaluator: values
@@ -2098,5 +2111,5 @@ package formula
 
 //@ func GetFilePositionFromLineAndCharacter
 //@   tags [C08,C09]
-//@   requires file != nil && (len(file.LineStarts) > 0 ==> starts(file.LineStarts, len(file.Text)))
+//@   requires file != nil && (len(file.LineStarts) > 0 ==> lt(file.LineStarts, file.Text))
 //@   assigns file.LineStarts
